@@ -35,6 +35,7 @@ TWILIGHT = math.pi / 12.0  # ground site: Sun at least 15 deg below the horizont
 ANG_BAND = 1e-9  # rad. angles come from arccos/arcsin/atan2 of O(1) arguments: <= 1e-13 rad away from 0/pi, where the
 #                  library's arccos loses up to sqrt(eps) = 1.5e-8 (only within 1e-8 of 0/pi).  Lattices keep >= 1e-6.
 SLEW_BAND = 1e-7  # rad. slew angle ~ 0 (re-pointing at the boresight) is arccos(1-eps) <= 2.2e-8 in the library
+FRAME_TILT = 1e-10  # rad: assumed accuracy of the library's geodetic vertical (closed-form ecef2lla: 5e-12 measured at GEO)
 ZENITH_H = 1e-7  # relative horizontal part below which the library may take the azimuth from the velocity
 #                  (it does so iff z/|rho| rounds to exactly 1.0, i.e. h/|rho| < ~1.05e-8)
 
@@ -135,6 +136,12 @@ class Frame:
 
     def ecef_direction(self, eci_vec):
         return [float(x) for x in self.M @ np.asarray(eci_vec, dtype=float)[:3]]
+
+
+def az_band(v, rmax):
+    """Rounding band of an azimuth: ANG_BAND + (position rounding 32 eps R + frame tilt * rho) / horizontal part."""
+    h = math.hypot(v[0], v[1])
+    return ANG_BAND + (32.0 * vg.EPS * rmax + FRAME_TILT * vg.norm(v)) / max(h, 1e-300)
 
 
 def azimuths(v):
@@ -245,12 +252,14 @@ def evaluate(spec, frame: Frame, target_eci, estimate_eci, prior_boresight, dt, 
     else:
         half_az, half_el = fov[1] * DEG / 2.0, fov[2] * DEG / 2.0
         d_el = abs(elevation(p_sez) - elevation(t_sez))
+        rmax_ = max(vg.norm(sensor_eci), vg.norm(tgt), vg.norm(est))
+        band_fov = az_band(p_sez, rmax_) + az_band(t_sez, rmax_)
         cands = []
         worst = None
         for ap in azimuths(p_sez):
             for at in azimuths(t_sez):
                 m = min(half_az - vg.circ_dist(ap, at), half_el - d_el)
-                cands.append(_cls(m, ANG_BAND))
+                cands.append(_cls(m, band_fov))
                 worst = m if worst is None else min(worst, m)
         mg["fov"] = worst
         st["fov"] = _merge(*cands)
@@ -279,13 +288,16 @@ def evaluate(spec, frame: Frame, target_eci, estimate_eci, prior_boresight, dt, 
     for az in azimuths(t_sez):
         ok, margin = vg.mask_admits(az, az_lo, az_hi)
         m = margin if ok else -margin
-        cands.append(_cls(m, ANG_BAND))
+        cands.append(_cls(m, az_band(t_sez, max(r_s, r_t))))
         worst = m if worst is None else min(worst, m)
     mg["az_mask"] = worst
     st["az_mask"] = _merge(*cands)
 
     geo = {
         "fov_half": (fov[1] if fov[0] == "conic" else min(fov[1], fov[2])) * DEG / 2.0,
+        "los_unit": "km" if min(r_s, r_t) >= A_EARTH else "sin_elevation",
+        "h": math.hypot(t_sez[0], t_sez[1]),
+        "rmax": max(r_s, r_t),
         "range": rng,
         "range_rate": range_rate_eci(sensor_eci, tgt),
         "az": azimuths(t_sez),
